@@ -10,9 +10,11 @@ while read sha checks; do
   if git -C $wt revert --no-commit $sha >/dev/null 2>&1; then
      git -C $wt diff HEAD > $d/patch.diff
   else
-     echo "fix-$sha CONFLICT"; git -C /repo worktree remove --force $wt; continue
+     # a later fix touched the same lines: keep the hand-made reverse patch if there is one
+     git -C /repo worktree remove --force $wt
+     if [ -s $d/patch.diff ]; then echo "fix-$sha (hand-made reverse patch kept)"; wt=""; else echo "fix-$sha CONFLICT"; continue; fi
   fi
-  git -C /repo worktree remove --force $wt
+  [ -n "$wt" ] && git -C /repo worktree remove --force $wt
   out=$(tools/mutant.sh $d/patch.diff quick $checks 2>&1)
   subject=$(git -C /repo log -1 --format=%s $sha)
   /venv/bin/python - "$sha" "$subject" "$checks" "$out" > $d/meta.json <<'PY'
